@@ -14,6 +14,8 @@ CONSTANTS
   InitNowVal <- SimNow
   Pick <- SimPick
   Params <- C_Params
+  ParamAlts <- C_ParamAlts
+  ParamGate <- SimParamGate
   Prs <- C_Prs
   ProvSeqs <- C_ProvSeqs
   Msgs <- C_Msgs
